@@ -409,6 +409,10 @@ def gen_c12(r, quick):
     cases += gen_slow_write(r, 40 if quick else 300)
     cases += gen_second_connection(r, 40 if quick else 300)
     cases += gen_carry_over(r, 120 if quick else 400)
+    for c, exp in cl.gen_parked(r):          # the transmit side: bounded by the timeout from its start; the reply deadline counts from its end
+        cases.append(c)
+        if exp:
+            EXPECT[cl.to_line(c)] = exp
     w = {'S': 6, 'F': 4, 'P': 1.5, 'Q': 5, 'T': 9, 'E': 0.3, 'D': 0.2, 'H': 0, 'A': 0.05, 'X': 0.1, 'W': 0.3, 'V': 0.6,
          'Z': 0.2, 'R': 0.2, 'G': 0.2, 'L': 0.2}
     for _ in range(1500 if quick else 10000):
@@ -447,6 +451,8 @@ def run(ctx):
                 nexp += 1
                 if nexp == 1:
                     key = 'C12.timely-reply-on-a-new-connection-not-accepted' if wt is not None and wc == 'Ok' and rid == 1 and exp.get(0, ('', 0))[0] == 'Io' else 'C12.outcome-at-the-deadline-boundary'
+                    if any(st[0] == 'WP' for st in c[1]):
+                        key = 'C12.transmission-or-reply-deadline-of-a-parked-write-not-as-required'
                     ctx.violation(key, f'script {cl.to_line(c)}: request {rid} must complete with {wc} at t={wt}, the implementation reports {g}; impl={i}',
                                   {'cases': [cl.case_json(c)], 'impl': i, 'expected': {str(k): list(v) for k, v in exp.items()}})
     ctx.oblige('spec:directed-deadline-and-reconnect-expectations', nexp == 0, f'{nexp} failed of {len(EXPECT)}')
